@@ -9,6 +9,7 @@ import (
 	"os"
 	"strings"
 	"sync"
+	"time"
 	"unicode/utf8"
 
 	"golang.org/x/tools/go/ssa"
@@ -50,17 +51,18 @@ type workItem struct {
 }
 
 type Engine struct {
-	panics  []*panicState   // Go panics currently unwinding through frames with deferred calls
-	pools   map[*Cell][]Val // sync.Pool contents (per path)
-	wraps   map[*Cell]Iface // error cell -> the error it wraps (fmt.Errorf with %w; per path)
-	prog    *ssa.Program
-	sizes   types.Sizes
-	tf      *TermFactory
-	z       *Solver
-	ev      Evaluator
-	globals map[*ssa.Global]*Cell
-	fns     map[*ssa.Function]*fnInfo
-	run     *HarnessRun
+	deadline time.Time       // wall-clock limit of the current harness (zero: none)
+	panics   []*panicState   // Go panics currently unwinding through frames with deferred calls
+	pools    map[*Cell][]Val // sync.Pool contents (per path)
+	wraps    map[*Cell]Iface // error cell -> the error it wraps (fmt.Errorf with %w; per path)
+	prog     *ssa.Program
+	sizes    types.Sizes
+	tf       *TermFactory
+	z        *Solver
+	ev       Evaluator
+	globals  map[*ssa.Global]*Cell
+	fns      map[*ssa.Function]*fnInfo
+	run      *HarnessRun
 
 	// path state
 	epoch     uint32
@@ -1172,6 +1174,11 @@ func (e *Engine) runFrameFrom(fr *frame, b *ssa.BasicBlock) Val {
 			e.steps++
 			if e.steps > e.maxSteps {
 				panic(pathEnd{kind: "budget", msg: "instruction budget exhausted in " + fn.String()})
+			}
+			if e.steps&1023 == 0 && !e.deadline.IsZero() && time.Now().After(e.deadline) {
+				// the harness ran out of wall-clock time in the middle of a path (a path
+				// with very many solver decisions): not a finding, the run is truncated
+				panic(pathEnd{kind: "deadline", msg: "wall-clock limit of the harness reached"})
 			}
 			switch x := in.(type) {
 			case *ssa.Return:
